@@ -353,61 +353,61 @@ def _case_boot(case, ctx):
     sigp = 'boot_noise_ceiling|' + cfg
     singleton = _group_class(labels, n_rdm) == 'singleton'
     ref_labels = list(range(n_rdm)) if labels is None else list(labels)
+    # ---- what the reference says (None = undefined for this input -> excluded and counted)
+    want_lo = want_up = None
+    order = False
+    if method in PLAIN:
+        want_lo, info = R.lower_bound(method, stack, ref_labels)
+        if want_lo is None:
+            ctx.exclude('lower bound: ' + info)
+        if singleton:
+            want_up = R.upper_bound(method, stack)
+            if want_up is None:
+                ctx.exclude('upper bound: pooled RDM of all data undefined (direction vanishes)')
+            elif not close(want_up, R.max_score(method, stack), TOL):
+                # the two reference routes disagree: oracle problem, not a library defect
+                raise AssertionError('reference pooled score %.12g != closed-form optimum %.12g'
+                                     % (want_up, R.max_score(method, stack)))
+    if singleton and method in ORDER:
+        base = method if method in PLAIN else ('corr' if 'corr' in method else 'cosine')
+        order = (R.upper_bound(base, stack) is not None and R.lower_bound(base, stack)[0] is not None)
+        if not order and method in WHITE:     # (plain: already counted above)
+            ctx.exclude('ordering: a pooled RDM is undefined (direction vanishes)')
+    if want_lo is None and want_up is None and not order:
+        return
+    # ---- the library
     with ctx.guard(sigp, case):
         rdms = _rdms(_masked(full, mask), labels)
         desc = 'index' if labels is None else 'grp'
         lo, up = boot_noise_ceiling(rdms, method=method, rdm_descriptor=desc)
         lo, up = float(lo), float(up)
-        judged = False
-        if method in PLAIN:
-            want_lo, info = R.lower_bound(method, stack, ref_labels)
-            if want_lo is None:
-                ctx.exclude('lower bound: ' + info)
+        ctx.case(case)
+        ctx.outcome((round(lo, 9), round(up, 9)))
+        if want_lo is not None:
+            ctx.dev('lower/' + method, reldev(lo, want_lo))
+            if not close(lo, want_lo, TOL):
+                ctx.fail(sigp + '|lower!=leave-one-group-out', case,
+                         'lower bound %.12g, mean over left-out groups of sim(left-out, pooled '
+                         'rest) = %.12g; data=%s mask=%s labels=%s' % (
+                             lo, want_lo, full.tolist(), list(mask), ref_labels))
+        if want_up is not None:
+            ctx.dev('upper/' + method, reldev(up, want_up))
+            if not close(up, want_up, TOL):
+                ctx.fail(sigp + '|upper!=best-achievable', case,
+                         'upper bound %.12g, highest achievable average similarity %.12g; '
+                         'data=%s mask=%s' % (up, want_up, full.tolist(), list(mask)))
+            if case.get('cands'):
+                _candidates(case, ctx, rdms, full, stack, mask, method, up, sigp)
+        if order:
+            tol = TOL_CG if method in WHITE else TOL
+            if np.isnan(lo) or np.isnan(up):
+                ctx.fail(sigp + '|bound-is-nan', case, 'lower %r upper %r for data=%s mask=%s' % (
+                    lo, up, full.tolist(), list(mask)))
             else:
-                judged = True
-                ctx.dev('lower/' + method, reldev(lo, want_lo))
-                if not close(lo, want_lo, TOL):
-                    ctx.fail(sigp + '|lower!=leave-one-group-out', case,
-                             'lower bound %.12g, mean over left-out groups of sim(left-out, pooled '
-                             'rest) = %.12g; data=%s mask=%s labels=%s' % (
-                                 lo, want_lo, full.tolist(), list(mask), ref_labels))
-            if singleton:
-                want_up = R.upper_bound(method, stack)
-                best = R.max_score(method, stack)
-                if want_up is None:
-                    ctx.exclude('upper bound: pooled RDM of all data undefined (direction vanishes)')
-                else:
-                    judged = True
-                    ctx.dev('upper/' + method, reldev(up, want_up))
-                    if not close(want_up, best, TOL):
-                        # the two reference routes disagree: oracle problem, not a library defect
-                        raise AssertionError('reference pooled score %.12g != closed-form optimum %.12g'
-                                             % (want_up, best))
-                    if not close(up, want_up, TOL):
-                        ctx.fail(sigp + '|upper!=best-achievable', case,
-                                 'upper bound %.12g, highest achievable average similarity %.12g; '
-                                 'data=%s mask=%s' % (up, want_up, full.tolist(), list(mask)))
-                    if case.get('cands'):
-                        _candidates(case, ctx, rdms, full, stack, mask, method, up, sigp)
-        if singleton and method in ORDER:
-            base = method if method in PLAIN else ('corr' if 'corr' in method else 'cosine')
-            if R.upper_bound(base, stack) is None or R.lower_bound(base, stack)[0] is None:
-                if method in WHITE:     # (plain: already counted above)
-                    ctx.exclude('ordering: a pooled RDM is undefined (direction vanishes)')
-            else:
-                judged = True
-                tol = TOL_CG if method in WHITE else TOL
-                if np.isnan(lo) or np.isnan(up):
-                    ctx.fail(sigp + '|bound-is-nan', case, 'lower %r upper %r for data=%s mask=%s' % (
+                ctx.dev('lower-upper/' + method, max(0.0, lo - up))
+                if lo > up + tol:
+                    ctx.fail(sigp + '|lower>upper', case, 'lower %.12g > upper %.12g; data=%s mask=%s' % (
                         lo, up, full.tolist(), list(mask)))
-                else:
-                    ctx.dev('lower-upper/' + method, max(0.0, lo - up))
-                    if lo > up + tol:
-                        ctx.fail(sigp + '|lower>upper', case, 'lower %.12g > upper %.12g; data=%s mask=%s' % (
-                            lo, up, full.tolist(), list(mask)))
-        if judged:
-            ctx.case(case)
-            ctx.outcome((round(lo, 9), round(up, 9)))
 
 
 @functools.lru_cache(maxsize=None)
